@@ -48,6 +48,7 @@ class Shape:
     asn4: bool
     addpath: bool
     size: int
+    aigp: bool = True  # `capability { aigp enable; }` on this session (AIGP is sent to an eBGP peer only then; RFC 7311)
     neighbor: Any = None
     neg_out: Any = None
     neg_in: Any = None
@@ -57,33 +58,42 @@ class Shape:
         return 'asn4' if self.asn4 else 'asn2'
 
 
-def _neighbor(local_as: int, peer_as: int, addpath: bool, la: str, pa: str):
+def _neighbor(local_as: int, peer_as: int, addpath: bool, la: str, pa: str, aigp: bool = True):
     cfg, n = sessions.make_config(local_as=local_as, peer_as=peer_as, families=FAMILIES, add_path=addpath, local_address=la, peer_address=pa)
     if addpath:
         n.capability.add_path = 3
-    n.capability.aigp = TriState.TRUE
+    if aigp:
+        n.capability.aigp = TriState.TRUE
     return cfg, n
 
 
+def _shape(name: str, ibgp: bool, asn4: bool, addpath: bool, size: int, aigp: bool = True) -> Shape:
+    from exabgp.bgp.message.open.routerid import RouterID
+
+    s = Shape(name, ibgp, asn4, addpath, size, aigp)
+    peer_as = 65000 if ibgp else 65001
+    _, n = _neighbor(65000, peer_as, addpath, '127.0.0.1', '127.0.0.2', aigp)
+    _, p = _neighbor(peer_as, 65000, addpath, '127.0.0.2', '127.0.0.1', aigp)
+    p.session.router_id = RouterID('2.2.2.2')
+    s.neighbor = n
+    s.neg_out = sessions.negotiate(n, p, Direction.OUT, asn4=asn4, msg_size=size)
+    s.neg_in = sessions.negotiate(n, p, Direction.IN, asn4=asn4, msg_size=size)
+    for neg in (s.neg_out, s.neg_in):
+        neg.aigp = aigp
+    return s
+
+
 def build_shapes() -> list[Shape]:
-    shapes = []
+    """16 session shapes with AIGP enabled, and one eBGP shape without it before and after them: a definition is
+    encoded for the sessions in this order with the SAME parsed Route objects, as the daemon does for its neighbors,
+    so what one session's encoding leaves behind on the objects meets a session that differs in that parameter."""
+    shapes = [_shape('ebgp/asn4/plain/65535-noaigp', False, True, False, 65535, aigp=False)]
     for ibgp in (False, True):
         for asn4 in (True, False):
             for addpath in (False, True):
                 for size in (65535, 4096):
-                    s = Shape(f'{"ibgp" if ibgp else "ebgp"}/{"asn4" if asn4 else "asn2"}/{"addpath" if addpath else "plain"}/{size}', ibgp, asn4, addpath, size)
-                    peer_as = 65000 if ibgp else 65001
-                    _, n = _neighbor(65000, peer_as, addpath, '127.0.0.1', '127.0.0.2')
-                    _, p = _neighbor(peer_as, 65000, addpath, '127.0.0.2', '127.0.0.1')
-                    from exabgp.bgp.message.open.routerid import RouterID
-
-                    p.session.router_id = RouterID('2.2.2.2')
-                    s.neighbor = n
-                    s.neg_out = sessions.negotiate(n, p, Direction.OUT, asn4=asn4, msg_size=size)
-                    s.neg_in = sessions.negotiate(n, p, Direction.IN, asn4=asn4, msg_size=size)
-                    for neg in (s.neg_out, s.neg_in):
-                        neg.aigp = True
-                    shapes.append(s)
+                    shapes.append(_shape(f'{"ibgp" if ibgp else "ebgp"}/{"asn4" if asn4 else "asn2"}/{"addpath" if addpath else "plain"}/{size}', ibgp, asn4, addpath, size))
+    shapes.append(_shape('ebgp/asn4/plain/4096-noaigp', False, True, False, 4096, aigp=False))
     return shapes
 
 
@@ -735,7 +745,7 @@ FIELDS: list[FieldSpec] = [
     FieldSpec('l2infoPref', 'route', R + 'extended-community [ l2info:19:0:1500:{v} ]', w_ext(6, 8), _rx(r'l2info:\d+:\d+:\d+:(\d+)')),
     FieldSpec('med', 'route', R + 'med {v}', w_attr(4, 0, 4), _rx(r' med (\d+)')),
     FieldSpec('localPref', 'route', R + 'local-preference {v}', w_attr(5, 0, 4), _rx(r'local-preference (\d+)'), present=lambda s: s.ibgp),
-    FieldSpec('aigp', 'route', R + 'aigp {v}', w_attr(26, 3, 11), _rx(r'aigp (0x[0-9a-fA-F]+)', conv=_hexint)),
+    FieldSpec('aigp', 'route', R + 'aigp {v}', w_attr(26, 3, 11), _rx(r'aigp (0x[0-9a-fA-F]+)', conv=_hexint), present=lambda s: s.ibgp or s.aigp),
     FieldSpec('attrCode', 'route', R + 'attribute [ {v} 0xc0 0xdeadbeef ]', w_attr_header('code'), None, note='hex'),
     FieldSpec('attrFlag', 'route', R + 'attribute [ 0x99 {v} 0xdeadbeef ]', w_attr_header('flag'), None, note='hex'),
     FieldSpec('attrLen', 'route', R + 'attribute [ 0x99 0xc0 {v} ]', w_attr_len(0x99), None, count=lambda n: '0x' + '00' * n),
